@@ -1196,6 +1196,7 @@ impl<Front: SocketHandler + std::fmt::Debug, L: ListenerHandler + L7ListenerHand
                     if dead
                         && !client.readiness().filter_interest().is_readable()
                         && !client.has_buffer_pressure(&self.context)
+                        && !client.has_unparsed_behind_interim(&self.context)
                     {
                         self.context
                             .debug
